@@ -5,7 +5,7 @@
     instantiated per case: the name/duration oracles from the annotation bits the harness computed by calling
     the real library functions on every scalar of the forest, the position extent by Model.YamlPosLines. *)
 From Coq Require Import List String Ascii Arith Bool NArith.
-From PintV Require Import Common.Bytes Model.Yaml Model.YamlPosLines Model.Parser.
+From PintV Require Import Common.Bytes Model.Yaml Model.YamlPosLines Model.Parser Model.YamlShape.
 Import ListNotations.
 Open Scope string_scope.
 
@@ -20,8 +20,10 @@ Fixpoint collect_ann (fuel : nat) (n : node) (acc : list (string * N)) : list (s
       match n_embedded n with Some t => collect_ann fuel' t acc | None => acc end
   end.
 
+(** Documents above the alias-expansion limit are refused before any oracle is asked (and their unfolding, which the
+    directed alias-chain cases serialise with sharing, is too large to walk): they contribute nothing to the table. *)
 Definition ann_table (ds : list (node * nat)) : list (string * N) :=
-  fold_left (fun a d => collect_ann (S (node_size (fst d))) (fst d) a) ds [].
+  fold_left (fun a d => if too_big (fst d) then a else collect_ann (S (node_size (fst d))) (fst d) a) ds [].
 
 Definition ann_bit (tbl : list (string * N)) (bit : N) (s : string) : bool :=
   match assoc s tbl with
@@ -126,7 +128,15 @@ Record case := {
   c_relaxed : option file              (* observed Parser.Parse, relaxed mode *)
 }.
 
+(** The structural premises of C19_relaxed_eq_strict (Properties/C19.v), checked on the forest yaml.v3 actually
+    returned: [shape_doc] through [shaped_b] (sound: Proofs/C19_shape.v) and the oracle fact [null_oracle_ok] on every
+    node of the forest.  Refused documents (too big to walk) are skipped. *)
+Definition hyp_shape (c : case) : bool :=
+  forallb (fun d => if too_big (fst d) then true
+                    else (shaped_b (fst d) && null_oracle_all_b null_ok_run (fst d))%bool) (c_docs c).
+
 Definition check (c : case) : list string :=
+  (if hyp_shape c then [] else ["hypothesis-shape"]) ++
   (match c_strict c with
    | Some obs => match file_diff (run_strict (c_thanos c) (c_lines c) (c_docs c) (c_yerr c)) obs with
                  | Some t => ["strict:" ++ t]
